@@ -197,4 +197,4 @@ def check_C19(tier, seed):
 from . import probecheck
 
 CHECKS = {"C19": check_C19, "C16": check_C16, "C11": check_C11, "C05": check_C05, "C06": check_C06, "C07": check_C07, "C10": check_C10, "C15": check_C15, "C17": check_C17, "C12": check_C12, "C09": check_C09, "C04": check_C04, "C01": check_C01, "C02": check_C02, "C03": check_C03, "C08": check_C08,
-          "C20": probecheck.check_C20, "C14": probecheck.check_C14, "C18": probecheck.check_C18}
+          "C20": probecheck.check_C20, "C14": probecheck.check_C14, "C18": probecheck.check_C18, "C13": probecheck.check_C13}
